@@ -361,5 +361,7 @@ def parse_reply(op, reply):
                   head[2], head[3], head[4], head[5], sorted(dec_list(",", head[6])))
         else:
             hd = tuple(head)
+            if hd[1] in ("other:IndexError", "other:ValueError", "other:KeyError", "internal"):
+                hd = ("err", "internal")      # a citation that does not index the reference list
         return (hd, ins)
     return tuple(f)
